@@ -102,5 +102,15 @@ def run(rep, tier, seed):
 
 
 def replay(obj):
-    print(obj)
-    return 0
+    """re-run one grid point on the implementation"""
+    r = obj["replay"]
+    if "alpha" not in r:
+        print(obj["detail"])
+        return 0
+    a, (lo, hi) = parse_q(r["alpha"]), [parse_q(x) for x in r["bounds"]]
+    rec = engine.run_cases("misc", "run_state_grid", [{"alpha": a, "points": [(lo, hi)]}], jobs=1)[0]
+    io = rec["impl"][1]
+    st, c = io.split()[1], io.split()[2]
+    bad = "MISMATCH" in io or st not in DOCUMENTED or (c == "1") != is_contra(a, lo, hi) or (st == "CONTRADICTION") != (c == "1")
+    print("REPRODUCED" if bad else "not reproduced", io)
+    return 1 if bad else 0
